@@ -29,7 +29,7 @@ def cfg(maxk, pvals, mvals, dvals, vvals, emit, known):
   KnownDevs = {C.tla_str(set(known))}
 INIT Init
 NEXT Next
-INVARIANT Sound
+INVARIANTS SoundIdeal SoundMachine Complete EmitRec
 CHECK_DEADLOCK FALSE
 """
 
